@@ -81,7 +81,7 @@ package generator
 // the source map tables well formed, and only appends to the output. With that, the call-site clause of
 // SourceMap.Add (parser/v2/verif_contracts.go) is checked at each of the generator's g.sourceMap.Add(expr, r)
 // calls: the text the range r was returned for is the expression that is being mapped.
-//@ spec smOK(sm) = sm.SourceLinesToTarget != nil && sm.TargetLinesToSource != nil && forall(l, 0, 1<<32, implies(has(sm.SourceLinesToTarget, l), sm.SourceLinesToTarget[l] != nil)) && forall(l, 0, 1<<32, implies(has(sm.TargetLinesToSource, l), sm.TargetLinesToSource[l] != nil))
+//@ spec smOK(sm) = sm.SourceLinesToTarget != nil && sm.TargetLinesToSource != nil && sm.SourceSymbolRangeToTarget != nil && sm.TargetSymbolRangeToSource != nil && forall(l, 0, 1<<32, implies(has(sm.SourceLinesToTarget, l), sm.SourceLinesToTarget[l] != nil)) && forall(l, 0, 1<<32, implies(has(sm.TargetLinesToSource, l), sm.TargetLinesToSource[l] != nil)) && forall(l, 0, 1<<32, implies(has(sm.SourceSymbolRangeToTarget, l), sm.SourceSymbolRangeToTarget[l] != nil)) && forall(l, 0, 1<<32, implies(has(sm.TargetSymbolRangeToSource, l), sm.TargetSymbolRangeToSource[l] != nil))
 //@ spec genPtrs(g) = g != nil && g.w != nil && g.w.builder != nil && g.sourceMap != nil && smOK(g.sourceMap)
 
 //@ methods (*generator) [C07]
@@ -91,3 +91,10 @@ package generator
 //@   ensures isPrefix(old(out(g.w.w)), out(g.w.w)) && implies(lasterr != nil, failedDuring) && implies(old(failedDuring), failedDuring) && genPtrs(g)
 //@   ensures implies(!failedDuring, rwOK(g.w))
 //@   loop 0 invariant genPtrs(g) && implies(errvar() != nil, failedDuring) && implies(!failedDuring, rwOK(g.w)) && isPrefix(old(out(g.w.w)), out(g.w.w)) && implies(old(failedDuring), failedDuring)
+
+// writeAttributeCSS replaces the expression of a class attribute by one it makes up (no source range); the
+// rewritten attribute is then written by writeExpressionAttributeValueDefault, which therefore has to cope with
+// expressions that do not come from the parser.
+//@ func (*generator) writeExpressionAttributeValueDefault [C07]
+//@   usemethods
+//@   noinv attr
